@@ -297,6 +297,55 @@ func genC17(r *rng, n int, tier string, emit func(string, ...string)) {
 			stat("valhdr", "multiplicity")
 		}
 	}
+	// (d) typed values around the boundaries of their value space, judged by the independent oracle (time.Parse, net.ParseIP,
+	// strconv): calendar days that do not exist (Feb 29 outside leap years, Feb 30, Apr 31), components one beyond their
+	// range, other shapes of RFC 3339 (fractions, offsets, lower-case letters); addresses and numbers at their limits
+	years := []string{"1900", "2000", "2016", "2017", "2020", "2100", "9999", "0000", "0001"}
+	months := []string{"00", "01", "02", "03", "04", "06", "09", "11", "12", "13"}
+	days := []string{"00", "01", "28", "29", "30", "31", "32"}
+	hours := []string{"00", "12", "23", "24"}
+	mins := []string{"00", "59", "60"}
+	suffixes := []string{"Z", "Z", "Z", "z", "+01:00", "-00:00", "+00:00", ".5Z", ".123456789Z", "", "+0100", "+24:00", "Z "}
+	ipVals := []string{"256.1.1.1", "255.255.255.255", "0.0.0.0", "1.2.3.4.5", "01.2.3.4", "1.2.3.04", "::1", "::", "::ffff:1.2.3.4", "1::2::3", "fe80::1%eth0", "2001:db8::g", "1.2.3.4 ", "[::1]", "2001:0db8:0000:0000:0000:0000:0000:0001", "1:2:3:4:5:6:7:8:9"}
+	longVals := []string{"9223372036854775807", "9223372036854775808", "18446744073709551616", "007", "00", "0", "1e3", "٣", "1 ", "４２"}
+	for i := 0; i < n/2+60; i++ {
+		var name, v, t string
+		switch r.intn(6) {
+		case 0, 1, 2, 3:
+			name = pick(r, []string{"WARC-Date", "WARC-Date", "WARC-Refers-To-Date"})
+			t = pick(r, []string{"revisit", "response", "resource"})
+			sep := "T"
+			if r.chance(1, 12) {
+				sep = pick(r, []string{"t", " "})
+			}
+			v = pick(r, years) + "-" + pick(r, months) + "-" + pick(r, days) + sep + pick(r, hours) + ":" + pick(r, mins) + ":" + pick(r, mins) + pick(r, suffixes)
+			if r.chance(1, 2) {
+				// the neighbourhood of the end of February and of the 30-day months, all other components ordinary
+				v = pick(r, years) + "-" + pick(r, []string{"02", "02", "04", "06", "09", "11"}) + "-" + pick(r, []string{"28", "29", "30", "31"}) + "T04:03:53Z"
+			}
+			stat("valhdr-typed", "time")
+		case 4:
+			name, t, v = "WARC-IP-Address", "response", pick(r, ipVals)
+			stat("valhdr-typed", "ip")
+		default:
+			name, t, v = pick(r, []string{"Content-Length", "WARC-Segment-Number", "WARC-Segment-Total-Length"}), "continuation", pick(r, longVals)
+			stat("valhdr-typed", "number")
+		}
+		h := baseHeader(t)
+		replaced := false
+		for k := range h {
+			if h[k][0] == name {
+				h[k][1] = v
+				replaced = true
+			}
+		}
+		if !replaced {
+			h = append(h, [2]string{name, v})
+		}
+		ver := pick(r, []string{"1.0", "1.1"})
+		emitValHdr(emit, strict, ver, h)
+		emitValHdr(emit, warn, ver, h)
+	}
 	// (c) random mixes of defects, all policy settings
 	for i := 0; i < n; i++ {
 		t := pick(r, types)
